@@ -24,6 +24,23 @@ CLAIMS = {
         technique="machine-checked proof in Coq (list-level refinement) + bit-exact correspondence"),
 }
 
+CLAIMS["C09"] = dict(
+    text="Coq theorems (Properties/C09.v): for EVERY table satisfying the counter/shape invariant SafeWF (any occupancy and tombstone pattern, any size from the static singleton through tables smaller than, equal to and larger than a scan group, both scanners) the model of RawIter yields exactly the FULL buckets, each once, in order, then None forever; after n steps the length report is exactly the remaining count and fold visits exactly the rest; default iterators are empty. Tie: generated map/set/table histories with an iterator operation every fourth step; the visited sequence, len() and size_hint() at every step, fold-vs-next and clone-continues-equally are compared with the extracted model and checked in the harness.",
+    note=COMMON_NOTE + " That every reachable table satisfies SafeWF is the subject of C02/C05 (Proofs/RawOpsSafe.v etc.). Clone independence of an iterator is a harness-level check (the model iterator is a value).",
+    technique="machine-checked proof in Coq (invariant + exact iteration) + bit-exact correspondence")
+CLAIMS["C16"] = dict(
+    text="Coq theorems (Properties/C16.v) over the declarations GENERATED from the sources (every public struct/enum with its fields, every unsafe impl Send/Sync with its bounds): for every public type and EVERY assignment of Send/Sync to its parameters (finite enumeration inside Coq = all instantiations), being Send/Sync implies the required Send/Sync of every parameter the type gives shared / exclusive / owning access to (AccessTable), and every parameter with exclusive access is invariant. Tie: the calculus' predictions are compared with rustc on ~1800 (quick) / ~14000 (thorough) generated probe programs; borrow and variance probes must be rejected by rustc.",
+    note=COMMON_NOTE + " Partial: Model/Marker.v is a model (not a verified implementation) of rustc's auto-trait and variance rules; the borrow-lifetime clause of the property is decided by rustc on probe programs only; Spec/AccessTable.v is a hand-written specification.",
+    technique="machine-checked proof in Coq by finite enumeration over source-generated declarations + rustc probe validation")
+CLAIMS["C19"] = dict(
+    text="Coq theorems (Properties/C19.v): for every SafeWF table and EVERY list of split-or-consume decisions (every binary split tree of any depth) the leaves of the model of RawIterRange::split concatenate, left to right, to exactly the sequential iteration -- pairwise disjoint, every stored element once, no out-of-bounds or unaligned group load; and for every choice of per-leaf stop positions of a short-circuiting consumer each element is delivered exactly once or dropped exactly once. Tie: the real split is driven along caller-chosen trees through a hook and every leaf compared with the extracted model; par_iter / par_iter_mut / into_par_iter / par_drain (early-stopping consumers) / par_extend run on pools of 1..64 threads and are judged as multisets with drop accounting.",
+    note=COMMON_NOTE + " Partial: thread interleavings, rayon's contract that each producer is folded exactly once, and data-race freedom are runtime facts outside the model.",
+    technique="machine-checked proof in Coq (induction over split trees) + bit-exact correspondence of the split function")
+CLAIMS["C20"] = dict(
+    text="Coq theorems (Properties/C20.v): for every claimed size hint the pre-allocation (expression generated from serde.rs) is at most 4096 elements hence at most 8192 buckets; inserting any input sequence yields last-value-per-key with unique keys; feeding the entries of any map with unique keys in any order rebuilds it. Tie: deserialisation from scripted inputs (duplicates, hints 0..usize::MAX or absent, an error at every position) is compared bit for bit with the extracted model (with_capacity(cautious(hint)) + inserts; partial map dropped on error), round trips of maps with arbitrary histories, set visitors incl. deserialize_in_place; leak / double-drop accounting on the error paths.",
+    note=COMMON_NOTE + " serde's own data-model plumbing and concrete formats are outside the model (an in-memory format is used). That the table realises the reference map is C01's subject.",
+    technique="machine-checked proof in Coq + bit-exact correspondence")
+
 REASON_PENDING = "check under construction in this round (model/theorems exist or are being written; not yet registered)"
 
 def main():
